@@ -74,6 +74,7 @@ structure IFiber where
   spawned : Bool := false
   bodies : List Nat := []
   blocks : List (Option Nat) := []     -- open blocks, innermost first; `some b` = with-deadline body b
+  sup : Option Nat := none             -- supervisor channel of the task (ev/go f v chan)
   sop : Option SOp := none
   deriving Inhabited
 
@@ -145,6 +146,7 @@ def showVal (s : IS) : Val → String
   | .err n => if n ≥ 1000 then s!"\"command_failed_with_non-zero_exit_code_{n - 1000}\"" else "\"" ++ nameOf s.msgs (n - 3) ++ "\""
   | .int n => toString n
   | .buf n => nameOf s.bufs n
+  | .sup sig f => "(:" ++ (if sig == 0 then "ok" else "error") ++ "," ++ ((s.fibers[f]?.map (·.name)).getD "?") ++ ",nil)"
 
 def fname (s : IS) (f : Nat) : String := (s.fibers[f]?.map (·.name)).getD "?"
 
@@ -404,7 +406,13 @@ def runFiber (s : IS) (f : Nat) : Nat → IS
   | fuel + 1 =>
     let fb := s.fibers[f]!
     match fb.prog[fb.pc]? with
-    | none => { s with w := step s.cfg s.w (.fiberDead f) }
+    | none =>
+        -- the task's function returned: run phase pushes the supervisor event (signal ok) if the task is supervised
+        let w := step s.cfg s.w (.fiberDead f)
+        let w := match fb.sup with
+          | some c => step s.cfg w (.superPush c (.sup 0 f))
+          | none => w
+        { s with w := w }
     | some st =>
       let next (s : IS) : IS := { s with fibers := s.fibers.modify f fun fb => { fb with pc := fb.pc + 1 } }
       match st with
